@@ -38,13 +38,15 @@ def pctDecode : List Char → List UInt8
 def push (path : List Char) (seg : List UInt8) : List Char :=
   if seg == [0x2E] || seg == [0x2E, 0x2E] then path           -- "." and ".." are skipped
   else
+    let path0 := path
     let path := if path.length > 1 then path ++ ['/'] else path
     let enc := encodeBytes (seg.filter (fun b => !isTabNl b))
     if enc == ['.', '.'] then
-      -- TAB/LF/CR removal produced "..": the previous segment is removed (shorten_path)
-      let p := path.dropLast     -- drop the '/' just added (or nothing when path = "/")
-      let p' := (p.reverse.dropWhile (· != '/')).reverse
-      if p'.length > 1 then p'.dropLast else p'
+      -- TAB/LF/CR removal produced "..": the previous segment is removed (shorten_path);
+      -- the '/' just added goes too, and at the root "/" nothing can be removed
+      let p := path0
+      -- "/api/v2" becomes "/api/": the slash before the removed segment stays
+      (p.reverse.dropWhile (· != '/')).reverse
     else if enc == ['.'] then path
     else path ++ enc
 
